@@ -289,7 +289,26 @@ func (g *typeGen) typ(t *rapid.T, depth int) TypeDesc {
 				}
 				names = append(names, p.Name)
 			}
-			return TypeDesc{Kind: "pool", Pool: rapid.SampledFrom(names).Draw(t, "pool")}
+			pt := TypeDesc{Kind: "pool", Pool: rapid.SampledFrom(names).Draw(t, "pool")}
+			// hand-written types (custom folders, user unfolders, expanders,
+			// IsZeroer) are looked up by type in several places — as target, as
+			// pointer target, as slice/map element, as pointer element: draw
+			// those positions on purpose
+			switch rapid.IntRange(0, 11).Draw(t, "poolwrap") {
+			case 0:
+				return TypeDesc{Kind: "ptr", Elem: &pt}
+			case 1:
+				return TypeDesc{Kind: "slice", Elem: &pt}
+			case 2:
+				return TypeDesc{Kind: "map", Elem: &pt}
+			case 3:
+				return TypeDesc{Kind: "slice", Elem: &TypeDesc{Kind: "ptr", Elem: &pt}}
+			case 4:
+				return TypeDesc{Kind: "map", Elem: &TypeDesc{Kind: "ptr", Elem: &pt}}
+			case 5:
+				return TypeDesc{Kind: "ptr", Elem: &TypeDesc{Kind: "ptr", Elem: &pt}}
+			}
+			return pt
 		}
 		return g.scalar(t)
 	default:
